@@ -74,6 +74,101 @@ fn run(cases: &str, out: &str, start: usize) {
     }
 }
 
+
+/// passes everything through and keeps every `stride`-th case (small ones only); `finish` appends the kept cases once
+/// more, each under a reader mode other than the plain cursor
+struct SampleTee<'a> {
+    w: &'a mut dyn Write,
+    cap: usize,
+    stride: usize,
+    ncase: usize,
+    cur: Option<(usize, Vec<String>, usize)>,
+    kept: Vec<(usize, Vec<String>)>,
+    part: Vec<u8>,
+    dict_case: bool,
+}
+
+impl<'a> SampleTee<'a> {
+    fn new(w: &'a mut dyn Write, cap: usize) -> Self {
+        SampleTee { w, cap, stride: 3, ncase: 0, cur: None, kept: vec![], part: vec![], dict_case: false }
+    }
+    fn close_case(&mut self) {
+        if let Some((idx, lines, size)) = self.cur.take() {
+            if size <= 65536 && idx % self.stride == 0 {
+                self.kept.push((idx, lines));
+                if self.kept.len() > self.cap {
+                    self.stride *= 2;
+                    let st = self.stride;
+                    self.kept.retain(|(i, _)| i % st == 0);
+                }
+            }
+        }
+    }
+    fn feed(&mut self, line: &str) {
+        if line.starts_with("#case") {
+            self.close_case();
+            // a `#case dictionary` block changes the dictionary for what follows: such files are not sampled
+            if line.contains(" dictionary ") {
+                self.dict_case = true;
+            }
+            self.cur = Some((self.ncase, vec![line.to_string()], 0));
+            self.ncase += 1;
+        } else if let Some((_, lines, size)) = self.cur.as_mut() {
+            *size += line.len();
+            if *size <= 65536 {
+                lines.push(line.to_string());
+            }
+        }
+    }
+    fn finish(&mut self) {
+        if !self.part.is_empty() {
+            let l = String::from_utf8_lossy(&self.part).to_string();
+            self.part.clear();
+            self.feed(&l);
+        }
+        self.close_case();
+        if self.dict_case {
+            return;
+        }
+        let modes = [1u32, 4, 6, 2, 5, 7, 3];
+        let kept = std::mem::take(&mut self.kept);
+        let mut n = self.ncase;
+        for (k, (idx, lines)) in kept.iter().enumerate() {
+            let label = lines[0].splitn(3, ' ').nth(2).unwrap_or("");
+            let mode = modes[k % modes.len()];
+            writeln!(self.w, "#case {} frag{} of {} {}", n, mode, idx, label).unwrap();
+            n += 1;
+            writeln!(self.w, "rmode {}", mode).unwrap();
+            for l in &lines[1..] {
+                writeln!(self.w, "{}", l).unwrap();
+            }
+            writeln!(self.w, "rmode 0").unwrap();
+        }
+    }
+}
+
+impl<'a> Write for SampleTee<'a> {
+    fn write(&mut self, buf: &[u8]) -> std::io::Result<usize> {
+        self.w.write_all(buf)?;
+        for &b in buf {
+            if b == b'\n' {
+                let l = String::from_utf8_lossy(&self.part).to_string();
+                self.part.clear();
+                self.feed(&l);
+            } else {
+                // lines beyond 64 KiB belong to cases that are not kept anyway
+                if self.part.len() <= 70000 {
+                    self.part.push(b);
+                }
+            }
+        }
+        Ok(buf.len())
+    }
+    fn flush(&mut self) -> std::io::Result<()> {
+        self.w.flush()
+    }
+}
+
 fn main() {
     let args: Vec<String> = std::env::args().collect();
     let cmd = args.get(1).map(|s| s.as_str()).unwrap_or("");
@@ -97,7 +192,16 @@ fn main() {
             let tier = args.get(4).cloned().unwrap_or_else(|| "quick".into());
             let out = std::io::stdout();
             let mut w = std::io::BufWriter::with_capacity(1 << 20, out.lock());
-            gen::generate(&family, seed, &tier, &args[5..], &mut w);
+            // families whose cases decode octets: a sample of the cases is run again through readers that hand out the
+            // octets in pieces (`rmode`); whatever the reader, every answer must be the same
+            let cap = if tier == "thorough" { 20000 } else { 1500 };
+            if matches!(family.as_str(), "c01" | "c02" | "c03" | "c04" | "c15" | "c16" | "c16h" | "c17" | "c18") {
+                let mut tee = SampleTee::new(&mut w, cap);
+                gen::generate(&family, seed, &tier, &args[5..], &mut tee);
+                tee.finish();
+            } else {
+                gen::generate(&family, seed, &tier, &args[5..], &mut w);
+            }
             w.flush().unwrap();
         }
         "probe" => {
